@@ -160,6 +160,15 @@ func (rd *reader) check(d damage, full bool) {
 		return
 	}
 	st.stats[d.label()+" -> "+errClass(term)]++
+	if d.kind == "intact" && (k < complete || term != io.EOF) {
+		// the undamaged log does not give back what was written
+		st.unreadableFrom = k
+		r := st.recs[min(k, len(st.recs)-1)]
+		st.violate("wal-decode", "intact-log-unreadable/"+errClass(term),
+			"the undamaged log replays only %d of %d written records, then %v; first record not given back: %s (%s written with %s, %d bytes framed; file sizes %v)",
+			k, complete, term, st.describe(k), r.Kind, map[bool]string{true: "WriteSync", false: "Write"}[r.Own], len(r.Frame), st.lay.sizes())
+		return
+	}
 	if k < complete {
 		st.violate("wal-decode", "decode-lost-record/"+d.label()+"/"+errClass(term),
 			"reading %s: only %d of the %d records that lie completely before the damage were yielded, then %v; first missing: %s",
@@ -168,13 +177,6 @@ func (rd *reader) check(d damage, full bool) {
 			return
 		}
 	}
-	if d.kind == "intact" && term != io.EOF {
-		st.violate("wal-decode", "decode-intact-error/"+errClass(term), "the intact log ends with %v instead of EOF", term)
-		if st.stop {
-			return
-		}
-	}
-
 	// ---- end-height markers
 	switch d.kind {
 	case "intact", "truncation", "truncation-fresh":
